@@ -82,7 +82,21 @@ def kernel_summary(fb, be, body, alias, in_name="in", ctx=None, F=None):
     for nm, v in p["cells"].items():
         if nm.startswith("self.") and v is not None and v[0] in ("bytes", "int", "struct"):
             state[nm[5:]] = v
+            if v[0] == "struct":
+                for leaf, lv in flatten_value(v).items():
+                    state[nm[5:] + "." + leaf] = lv
     return out, state, p
+
+
+def flatten_value(v, prefix=""):
+    """{dotted leaf path: bytes/int value} of a (nested) struct value."""
+    out = {}
+    if v[0] == "struct":
+        for n, x in v[2].items():
+            out.update(flatten_value(x, prefix + n + "."))
+    elif v[0] in ("bytes", "int"):
+        out[prefix[:-1]] = v
+    return out
 
 
 def run_plain(fb, cr, body, names, ctx=None, F=None, alias=False):
